@@ -723,3 +723,7 @@ mod tests {
         handle.abort();
     }
 }
+
+#[cfg(all(test, pendulum_project_ntpd_rs_verif))]
+#[path = "/verif/harness/ntpd/hook_daemon__ntp_source.rs"]
+mod verif_hook;
